@@ -83,7 +83,7 @@ const HTTP_KINDS: [&str; 2] = ["http_request", "http_response"];
 impl Prop for C20 {
     type Scn = Scn;
     const ID: &'static str = "C20";
-    const ENGINE: &'static str = "netsim";
+    const ENGINE: &'static str = crate::NETSIM_ENGINE;
 
     fn rule() -> &'static str {
         "one evaluation = one frame delivered in lockstep to a HuginnNet instance per switch combination and to the TCP, HTTP and stateless TLS analyzers at the same simulated time, compared field by field; non-trivial = the run contains frames that yield TCP, HTTP and TLS results and at least one malformed frame; distinct = distinct event-log hash"
